@@ -1,8 +1,22 @@
 /-
   C07 — Variation model reproduces its masters exactly and builds valid regions.
-  Property theorems only; helper lemmas live in FontcProofs/.
+  Property theorems only; helper lemmas live in FontcProofs/
+  (Rounding, VarModelAlg, VarModelSort, VarModelGeom*, VarModelTri).
+
+  Setting.  `M := Model.new n locs` is the model of `VariationModel::new` (fontdrasil/src/variations.rs)
+  for `n` axes.  Master values are given in *model order*: `vals[j]` is the value at `M.locations[j]`
+  (`none` = this master is not supplied, as for sparse layers).  `M.deltas round vals` models
+  `deltas_with_rounding` (one scalar per master), `interpolate M.influence D at` models
+  `interpolate_from_deltas`.  Positions are addressed by `l[j]? = some x`, so every index condition
+  is explicit.  Hypotheses on the input: all locations have `n` coordinates (`hlen`), they are pairwise
+  distinct (`hnd`; the Rust input is a `HashSet`), and -- where the default master matters -- the
+  all-zero location is among them (`hz`).  (Coordinates in [-1,1] are not needed by these theorems.)
 -/
 import FontcModel.VarModel
+import FontcProofs.Rounding
+import FontcProofs.VarModelAlg
+import FontcProofs.VarModelSort
+import FontcProofs.VarModelTri
 
 namespace Fontc.C07
 open Fontc Fontc.VarModel
@@ -12,5 +26,179 @@ theorem tent_new_not_spanning (mn pk mx : Rat) :
     ¬ ((Tent.new mn pk mx).min < 0 ∧ 0 < (Tent.new mn pk mx).max) := by
   unfold Tent.new
   split <;> simp <;> intro h <;> exact Rat.lt_irrefl _
+
+/-- Without rounding (`RoundingBehaviour::None`), interpolating the computed deltas at any master
+    location that was given a value returns exactly that value. -/
+theorem deltas_reproduce_exact (n : Nat) (locs : List Loc)
+    (hlen : ∀ l ∈ locs, l.length = n) (hnd : locs.Pairwise (· ≠ ·))
+    (M : Model) (hM : M = Model.new n locs)
+    (vals : Values) (hvals : vals.length = M.locations.length)
+    (m : Nat) (loc : Loc) (v : Rat)
+    (hloc : M.locations[m]? = some loc) (hv : vals[m]? = some (some v)) :
+    interpolate M.influence (M.deltas Rounding.none.apply vals) loc = v := by
+  subst hM
+  exact VarModel.deltas_reproduce_exact _ _ _ vals (Model.new_triangular n locs hlen hnd) hvals
+    (fun _ => rfl) m loc v hloc hv
+
+/-- With any rounding function that moves a value by at most 1/2 (applied to each delta as it is
+    computed), the value reproduced at a master is within 1/2 of the given one: rounding errors do
+    not accumulate. -/
+theorem deltas_reproduce_rounded (n : Nat) (locs : List Loc)
+    (hlen : ∀ l ∈ locs, l.length = n) (hnd : locs.Pairwise (· ≠ ·))
+    (M : Model) (hM : M = Model.new n locs)
+    (round : Rat → Rat) (hround : ∀ x, ratAbs (round x - x) ≤ 1/2)
+    (vals : Values) (hvals : vals.length = M.locations.length)
+    (m : Nat) (loc : Loc) (v : Rat)
+    (hloc : M.locations[m]? = some loc) (hv : vals[m]? = some (some v)) :
+    ratAbs (interpolate M.influence (M.deltas round vals) loc - v) ≤ 1/2 := by
+  subst hM
+  exact VarModel.deltas_reproduce_rounded _ _ _ vals (Model.new_triangular n locs hlen hnd) hvals
+    hround m loc v hloc hv
+
+/-- Instance for the two `RoundingBehaviour`s of fontc (`None`, `TiesEven` = `f64::round_ties_even`). -/
+theorem deltas_reproduce_rounding (n : Nat) (locs : List Loc)
+    (hlen : ∀ l ∈ locs, l.length = n) (hnd : locs.Pairwise (· ≠ ·))
+    (M : Model) (hM : M = Model.new n locs) (rb : Rounding)
+    (vals : Values) (hvals : vals.length = M.locations.length)
+    (m : Nat) (loc : Loc) (v : Rat)
+    (hloc : M.locations[m]? = some loc) (hv : vals[m]? = some (some v)) :
+    ratAbs (interpolate M.influence (M.deltas rb.apply vals) loc - v) ≤ 1/2 :=
+  deltas_reproduce_rounded n locs hlen hnd M hM rb.apply (Rounding.apply_abs_le rb) vals hvals
+    m loc v hloc hv
+
+/-- The default (all-zero) location is the first location of the model, and the value reproduced
+    there is exactly `round v₀`, whatever the other masters are. -/
+theorem default_exact (n : Nat) (locs : List Loc)
+    (hlen : ∀ l ∈ locs, l.length = n) (hnd : locs.Pairwise (· ≠ ·))
+    (hz : List.replicate n 0 ∈ locs)
+    (M : Model) (hM : M = Model.new n locs)
+    (round : Rat → Rat)
+    (vals : Values) (hvals : vals.length = M.locations.length)
+    (v₀ : Rat) (hv : vals[0]? = some (some v₀)) :
+    M.locations[0]? = some (List.replicate n 0) ∧
+    interpolate M.influence (M.deltas round vals) (List.replicate n 0) = round v₀ := by
+  subst hM
+  have h0 : (Model.new n locs).locations[0]? = some (List.replicate n 0) := by
+    rw [Model.new_locations n locs hlen hnd, ← List.head?_eq_getElem?]
+    exact sortLocs_head_default n locs hlen hz
+  exact ⟨h0, VarModel.default_exact _ _ _ vals (Model.new_triangular n locs hlen hnd) hvals
+    _ v₀ h0 hv⟩
+
+/-- In particular the default master is reproduced exactly when its value is an integer (font
+    units), for both rounding behaviours. -/
+theorem default_exact_int (n : Nat) (locs : List Loc)
+    (hlen : ∀ l ∈ locs, l.length = n) (hnd : locs.Pairwise (· ≠ ·))
+    (hz : List.replicate n 0 ∈ locs)
+    (M : Model) (hM : M = Model.new n locs) (rb : Rounding)
+    (vals : Values) (hvals : vals.length = M.locations.length)
+    (k : Int) (hv : vals[0]? = some (some (k : Rat))) :
+    interpolate M.influence (M.deltas rb.apply vals) (List.replicate n 0) = (k : Rat) := by
+  rw [(default_exact n locs hlen hnd hz M hM rb.apply vals hvals k hv).2, Rounding.apply_intCast]
+
+/-- The model does not depend on the order in which the masters were supplied. -/
+theorem model_perm_invariant (n : Nat) (locs₁ locs₂ : List Loc)
+    (hlen : ∀ l ∈ locs₁, l.length = n) (hnd : locs₁.Pairwise (· ≠ ·))
+    (hperm : locs₁.Perm locs₂) :
+    Model.new n locs₁ = Model.new n locs₂ :=
+  Model.new_perm_invariant n locs₁ locs₂ hlen hnd hperm
+
+/-- Stronger: the model depends only on the *set* of supplied locations (no side conditions;
+    `Model.new` itself expands to `n` axes and removes duplicates). -/
+theorem model_set_invariant (n : Nat) (locs₁ locs₂ : List Loc)
+    (hset : ∀ l, l ∈ locs₁ ↔ l ∈ locs₂) :
+    Model.new n locs₁ = Model.new n locs₂ :=
+  Model.new_set_invariant n locs₁ locs₂ hset
+
+
+/-! ### Non-vacuity: a concrete 2-axis model with an off-axis and an intermediate master -/
+
+/-- Five masters, listed in model order. -/
+def exLocs : List Loc := [[0, 0], [1, 0], [0, 1], [1, 1], [1/2, 1/2]]
+/-- The same masters in another order. -/
+def exShuffled : List Loc := [[1, 1], [0, 1], [1/2, 1/2], [1, 0], [0, 0]]
+/-- Values at `exLocs` (the master at `[0,1]` is not supplied; `71/2` forces a rounding tie). -/
+def exVals : Values := [some 10, some 20, none, some (71/2), some 17]
+
+-- the hypotheses of the theorems hold for this input
+theorem exLocs_len : ∀ l ∈ exLocs, l.length = 2 := by decide +kernel
+theorem exLocs_nodup : exLocs.Pairwise (· ≠ ·) := by decide +kernel
+theorem exLocs_zero : List.replicate 2 0 ∈ exLocs := by decide +kernel
+example : ∀ l ∈ exLocs, ∀ x ∈ l, -1 ≤ x ∧ x ≤ 1 := by decide +kernel
+theorem exShuffled_perm : exShuffled.Perm exLocs := by decide +kernel
+
+/-- The model of the example, computed: locations keep the listed order … -/
+theorem exModel_locations : (Model.new 2 exLocs).locations = exLocs := by
+  rw [Model.new_locations 2 exLocs exLocs_len exLocs_nodup]
+  exact sortLocs_of_pairwise exLocs (by decide +kernel)
+
+/-- … and the influence regions are these (the last one is the intermediate master's). -/
+theorem exModel_influence : (Model.new 2 exLocs).influence =
+    [[⟨0, 0, 0⟩, ⟨0, 0, 0⟩], [⟨0, 1, 1⟩, ⟨0, 0, 0⟩], [⟨0, 0, 0⟩, ⟨0, 1, 1⟩], [⟨0, 1, 1⟩, ⟨0, 1, 1⟩],
+     [⟨0, 1/2, 1⟩, ⟨0, 1/2, 1⟩]] := by
+  rw [Model.new_influence 2 exLocs exLocs_len exLocs_nodup,
+    sortLocs_of_pairwise exLocs (by decide +kernel)]
+  decide +kernel
+
+/-- `deltas_reproduce_exact` applies (master 4 = `[1/2,1/2]`, value 17) … -/
+example : interpolate (Model.new 2 exLocs).influence
+    ((Model.new 2 exLocs).deltas Rounding.none.apply exVals) [1/2, 1/2] = 17 :=
+  deltas_reproduce_exact 2 exLocs exLocs_len exLocs_nodup _ rfl exVals
+    (by rw [exModel_locations]; decide +kernel) 4 _ _
+    (by rw [exModel_locations]; decide +kernel) (by decide +kernel)
+
+/-- … and agrees with direct evaluation of the model: deltas and all reproduced values. -/
+example : (Model.new 2 exLocs).deltas Rounding.none.apply exVals
+    = [some 10, some 10, none, some (31/2), some (-15/8)] := by
+  unfold Model.deltas; rw [exModel_locations, exModel_influence]; decide +kernel
+example : exLocs.map (interpolate (Model.new 2 exLocs).influence
+    ((Model.new 2 exLocs).deltas Rounding.none.apply exVals)) = [10, 20, 10, 71/2, 17] := by
+  unfold Model.deltas; rw [exModel_locations, exModel_influence]; decide +kernel
+
+/-- `deltas_reproduce_rounding` applies (master 3 = `[1,1]`, value 71/2, ties-even) … -/
+example : ratAbs (interpolate (Model.new 2 exLocs).influence
+    ((Model.new 2 exLocs).deltas Rounding.tiesEven.apply exVals) [1, 1] - 71/2) ≤ 1/2 :=
+  deltas_reproduce_rounding 2 exLocs exLocs_len exLocs_nodup _ rfl .tiesEven exVals
+    (by rw [exModel_locations]; decide +kernel) 3 _ _
+    (by rw [exModel_locations]; decide +kernel) (by decide +kernel)
+
+/-- … the bound 1/2 is attained here (36 vs 71/2), so it cannot be improved. -/
+example : (Model.new 2 exLocs).deltas Rounding.tiesEven.apply exVals
+    = [some 10, some 10, none, some 16, some (-2)] := by
+  unfold Model.deltas; rw [exModel_locations, exModel_influence]; decide +kernel
+example : exLocs.map (interpolate (Model.new 2 exLocs).influence
+    ((Model.new 2 exLocs).deltas Rounding.tiesEven.apply exVals)) = [10, 20, 10, 36, 17] := by
+  unfold Model.deltas; rw [exModel_locations, exModel_influence]; decide +kernel
+
+/-- `deltas_reproduce_rounded` with another admissible rounding (`otRound`). -/
+example : ratAbs (interpolate (Model.new 2 exLocs).influence
+    ((Model.new 2 exLocs).deltas (fun x => (otRound x : Rat)) exVals) [1/2, 1/2] - 17) ≤ 1/2 :=
+  deltas_reproduce_rounded 2 exLocs exLocs_len exLocs_nodup _ rfl _ otRound_abs_le exVals
+    (by rw [exModel_locations]; decide +kernel) 4 _ _
+    (by rw [exModel_locations]; decide +kernel) (by decide +kernel)
+
+/-- `default_exact` / `default_exact_int` apply: the default is first and reproduced exactly. -/
+example : (Model.new 2 exLocs).locations[0]? = some [0, 0] ∧
+    interpolate (Model.new 2 exLocs).influence
+      ((Model.new 2 exLocs).deltas Rounding.tiesEven.apply exVals) [0, 0]
+      = Rounding.tiesEven.apply 10 :=
+  default_exact 2 exLocs exLocs_len exLocs_nodup exLocs_zero _ rfl _ exVals
+    (by rw [exModel_locations]; decide +kernel) 10 (by decide +kernel)
+example : interpolate (Model.new 2 exLocs).influence
+    ((Model.new 2 exLocs).deltas Rounding.tiesEven.apply exVals) [0, 0] = ((10 : Int) : Rat) :=
+  default_exact_int 2 exLocs exLocs_len exLocs_nodup exLocs_zero _ rfl .tiesEven exVals
+    (by rw [exModel_locations]; decide +kernel) 10 (by decide +kernel)
+
+/-- `model_perm_invariant` applies: the shuffled input gives the same model, whose locations are
+    in the canonical order. -/
+example : Model.new 2 exShuffled = Model.new 2 exLocs :=
+  model_perm_invariant 2 exShuffled exLocs (by decide +kernel) (by decide +kernel) exShuffled_perm
+example : (Model.new 2 exShuffled).locations = [[0, 0], [1, 0], [0, 1], [1, 1], [1/2, 1/2]] := by
+  rw [model_perm_invariant 2 exShuffled exLocs (by decide +kernel) (by decide +kernel) exShuffled_perm]
+  exact exModel_locations
+/-- `model_set_invariant`: duplicates and order are irrelevant. -/
+example : Model.new 2 ([0, 0] :: exShuffled) = Model.new 2 exLocs :=
+  model_set_invariant 2 _ _ (fun l =>
+    ⟨(by decide +kernel : ∀ l ∈ [0, 0] :: exShuffled, l ∈ exLocs) l,
+     (by decide +kernel : ∀ l ∈ exLocs, l ∈ [0, 0] :: exShuffled) l⟩)
 
 end Fontc.C07
